@@ -348,7 +348,9 @@ class InProtocolBase(ProtocolMixin):
 
     def decimal_from_unicode(self, cls, string):
         cls_attrs = self.get_cls_attrs(cls)
-        if cls_attrs.max_str_len is not None and len(string) > \
+        # dict documents can carry decimals as numbers as well.
+        if isinstance(string, six.string_types) \
+                and cls_attrs.max_str_len is not None and len(string) > \
                                                      cls_attrs.max_str_len:
             raise ValidationError(string, "Decimal %%r longer than %d "
                                           "characters" % cls_attrs.max_str_len)
